@@ -22,6 +22,7 @@ def run(chk):
     chk.attempt(r12d, chk)
     chk.attempt(r12e, chk)
     chk.attempt(r12f, chk)
+    chk.attempt(r12g, chk)
 
 
 def _has_call(x):
@@ -577,3 +578,54 @@ def r12f(chk, rid='R12.f'):
         ok = (len(cache) == (1 if same else 2)) and all(g[0][1] == ('matcher', o) for g, o in zip(got, own))
         chk.ob(rid, 'cssutils/tokenize2.py', 'Tokenizer.__init__', f'macros {sorted((a[0] or {}).items())[:2]}... vs {sorted((b[0] or {}).items())[:2]}...: ' + ('one cache entry' if same else 'separate cache entries') + ', each tokenizer gets the matchers of its own tables', ok,
                f'{len(cache)} cache entries; the second tokenizer uses matchers compiled from {got[1][0][1][1][1][:3] if got[1] else None}: its tokens depend on which tokenizer was created first')
+
+
+def r12g(chk, rid='R12.g'):
+    chk.rule(rid, 'one parser, independent results, decided by evaluation: CSSParser.__init__ and then CSSParser.parseString - twice on the same parser object - are evaluated on their syntax trees with model sheet and media-list classes that make a new object per construction: every mutable object handed to the second sheet (its media list, its token source) is another object than the one handed to the first, and the second call is given the same arguments as if it were the first call of a fresh parser')
+    chk.assume('R12.g: MediaList, CSSStyleSheet and the tokenizer are models that record their constructor arguments; the error-mode switch is evaluated from the source against a model log object')
+    from sa.absint import Evaluator, Obj, Raised, Record
+
+    m = chk.repo.mod(PARSE)
+    init = m.get('CSSParser.__init__')
+    ps = m.get('CSSParser.parseString')
+    made_media, sheets = [], []
+
+    class MediaListM(Record):
+        def __init__(self, mediaText=None, *a, **k):
+            Record.__init__(self, mediaText=mediaText, items=[])
+            made_media.append(self)
+
+    def newsheet(**k):
+        sh = Obj(args=k)
+        sh._setFetcher = lambda f: None
+        sh._setCssTextWithEncodingOverride = lambda toks, encodingOverride=None, encoding=None: None
+        sheets.append(sh)
+        return sh
+
+    log = Record(raiseExceptions=False, setLog=lambda l: None, setLevel=lambda l: None)
+    cssm = Record(log=log, css=Record(CSSStyleSheet=newsheet), stylesheets=Record(MediaList=MediaListM), codec=Record(detectencoding_str=lambda b, final=False: ('utf-8', False)))
+    intr = {'cssutils': cssm, 'tokenize2': Record(Tokenizer=lambda **k: Obj(tokenize=lambda text_, fullsheet=False: iter([('IDENT', text_, 1, 1)]))),
+            'codecs.getdecoder': lambda name: (lambda b, encoding=None: ('decoded', len(b))), 'codec': cssm.codec}
+
+    def run_twice():
+        del made_media[:], sheets[:]
+        me = Obj()
+        r = Evaluator(init, intrinsics=intr, module=m, cls='CSSParser', model_types=(MediaListM,)).run(self=me)
+        if isinstance(r, Raised):
+            raise AnalysisError(f'CSSParser.__init__: {r!r}')
+        for _ in (1, 2):
+            r = Evaluator(ps, intrinsics=intr, module=m, cls='CSSParser', model_types=(MediaListM,)).run(self=me, cssText='a{}')
+            if isinstance(r, Raised):
+                raise AnalysisError(f'CSSParser.parseString: {r!r}')
+        return list(sheets)
+
+    got = run_twice()
+    if len(got) != 2:
+        raise AnalysisError(f'CSSParser.parseString: {len(got)} sheets constructed in two calls')
+    a, b = got
+    shared = sorted(k for k in a.args if isinstance(a.args[k], (Record, list, dict, set)) and a.args[k] is b.args.get(k))
+    chk.ob(rid, PARSE, 'CSSParser.parseString', 'two sheets parsed by one parser object share no mutable constructor argument', not shared,
+           f'both sheets are given the same object as {shared}: editing it on one result changes the other, and later results of this parser are born with the edit')
+    same = {k: (getattr(a.args.get(k), 'mediaText', a.args.get(k)), getattr(b.args.get(k), 'mediaText', b.args.get(k))) for k in set(a.args) | set(b.args)}
+    diff = {k: v for k, v in same.items() if v[0] != v[1]}
+    chk.ob(rid, PARSE, 'CSSParser.parseString', 'the second call of a parser object constructs its sheet like the first', not diff, f'{diff}')
